@@ -60,6 +60,7 @@ type Options struct {
 	InModule        bool // generating a module body (export allowed, return allowed)
 	ExportType      T
 	NoFloatFormat   bool
+	CallDefined     bool // call every function right after its definition
 }
 
 // Program is a generated program.
